@@ -1011,6 +1011,33 @@ def m_rstrip(E, a, kw):
     return models_iso._abstract_rstrip(E, s)
 
 
+@method(('str', 'bytes'), 'ljust')
+def m_ljust(E, a, kw):
+    s = a[0]
+    w = E.as_int(a[1])
+    if len(a) > 2:
+        f = a[2]
+        if not (isinstance(f, VSeq) and f.kind == s.kind and f.clen() == 1):
+            raise Unsupported('ljust fill character')
+        fillc = f.at(z3.IntVal(0))
+    else:
+        fillc = 32
+    n = s.n
+    tot = z3.simplify(dite(E.decide, n >= w, n, w))
+
+    def at(i, s=s, n=n, fillc=fillc):
+        c = I(i) < n
+        d = bool_lit(c)
+        if d is None:
+            d = E.decide(c)
+        if d is True:
+            return s.at(i)
+        if d is False:
+            return fillc
+        return ite(c, s.at(i), fillc)
+    return VSeq(s.kind, tot, at)
+
+
 @method('str', 'join')
 def m_join(E, a, kw):
     sep, it = a[0], a[1]
